@@ -13,7 +13,10 @@ monad `M = ExceptT Stop (StateM St)`), `Wee/Model/Eval.lean`, game-theoretic spe
 What is proved here (all for every seed / generator state, every cancellation point, every depth):
 
 * `C06_solver_sound` — the executable oracle `forcedMate n` / `lostIn n` is sound for `Win` / `Lost`.
-* `C06_static_ok` — a terminal static evaluation is the checkmate branch (from the C05 bound).
+* `C06_static_ok` — a terminal static evaluation is the checkmate branch (before the repair of defect F10: from the C05
+  bound `MaterialBounded`; since the heuristic result is clamped: for every state).  The hypotheses `MaterialBounded` /
+  `TreeBounded` of the theorems below are REDUNDANT since that repair; they are kept for the signatures, the versions
+  without them are the `_all` theorems of `Wee/Props/Clamped.lean`.
 * `C06_quiesce_sound` — every value of `quiescence_search` is `SoundVal`.
 * `C06_search_sound` — every call of `analyze_recursive` started on a sound table (`SoundTT`) keeps the table
   sound — also when it is interrupted or panics — and returns a `SoundVal` value: the complete induction
@@ -252,7 +255,8 @@ theorem C06_iterate_sound {D : State → Prop} {L nT nB : Nat} (g : Geo L nT nB)
   iterate_sound g art dom root hD htt rng0 maxDepth workersOf cancelAt fuelDepth
 
 /-- **C06_sound_fresh** (soundness half of C06 from fresh memory).  For every legal root position (placement
-without overlaps) whose reachable tree satisfies the material bound, every key table without harmful collision
+without overlaps) whose reachable tree satisfies the material bound (redundant since the repair of F10:
+`C06_sound_fresh_all`), every key table without harmful collision
 among the reachable positions, fresh memory of any geometry, every seed, depth limit, cancellation point and
 worker counts: every report with a winning terminal evaluation is a true forced mate for the side to move, and with
 one worker per iteration the reported first move leads to a position in which the opponent is `Lost`. -/
@@ -337,7 +341,8 @@ nothing is inserted then), table entries are re-used only with at least the rema
 keep the remaining depth exact — these are the facts a proof would use; (3) the draw-by-history return makes a
 mating line that repeats a position of the game history look like a draw, so the statement is restricted to an empty
 game history; (4) a full bucket may displace the root entry, in which case the iteration reports nothing
-(`line.is_empty()`), hence "some report" needs a table large enough for the searched tree. -/
+(`line.is_empty()`), hence "some report" needs a table large enough for the searched tree.
+(`TreeBounded root` is among the hypotheses as written before the repair of F10; it is redundant now.) -/
 def C06_complete_statement : Prop :=
   ∀ (root : State) (n d : Nat) (keys : KeyTable) (nT nB : Nat) (rng0 : Rng.ChaCha8) (workersOf : Nat → Nat),
     LegalPos root = true → DisjointBoard root.pieces → TreeBounded root →
